@@ -28,6 +28,12 @@ def family():
     class C17_A2(C17_A1):
         pass
 
+    class C17_A3(C17_A2):
+        pass
+
+    class C17_A4(C17_A3):
+        pass
+
     class C17_B0(object):
         pass
 
@@ -46,7 +52,8 @@ def family():
     class C17_I(abc.ABC):
         pass
     C17_I.register(C17_V)
-    _fam.update(A0=C17_A0, A1=C17_A1, A2=C17_A2, B0=C17_B0, B1=C17_B1, D=C17_D, V=C17_V, I=C17_I, W0=C17_W, W1=C17_W)
+    C17_I.register(C17_A3)
+    _fam.update(A0=C17_A0, A1=C17_A1, A2=C17_A2, A3=C17_A3, A4=C17_A4, B0=C17_B0, B1=C17_B1, D=C17_D, V=C17_V, I=C17_I, W0=C17_W, W1=C17_W)
     _fam["_late_registered"] = False
     return _fam
 
@@ -101,9 +108,13 @@ _H = {}
 def trait_holder(kind, tgt):
     key = (kind, tgt)
     if key not in _H:
-        from traits.api import HasTraits, Supports, AdaptsTo
-        T = Supports if kind == "supports" else AdaptsTo
-        _H[key] = type("C17_H_%s_%s" % (kind, tgt), (HasTraits,), {"x": T(family()[tgt])})
+        from traits.api import HasTraits, Supports, AdaptsTo, Either, Int
+        if kind == "either":
+            # Supports as an alternative of a compound trait (its own case inside the compiled compound validator)
+            tr = Either(Supports(family()[tgt]), Int)
+        else:
+            tr = (Supports if kind == "supports" else AdaptsTo)(family()[tgt])
+        _H[key] = type("C17_H_%s_%s" % (kind, tgt), (HasTraits,), {"x": tr})
     return _H[key]
 
 
@@ -182,7 +193,7 @@ def execute(offers, src, tgt, via, order=None):
     return {"offers": offers, "src": src, "tgt": tgt, "via": via, "result": result, "chain": chain, "isinst": isinst}
 
 
-VIAS = ["adapt", "adapt_default", "supports_protocol", "supports", "adaptsto", "supports2", "adaptsto2"]
+VIAS = ["adapt", "adapt_default", "supports_protocol", "supports", "adaptsto", "supports2", "adaptsto2", "either"]
 
 
 def case_fn(st, rep):
@@ -206,7 +217,7 @@ def random_lines(seed, n, phase):
     """larger random configurations (3-7 offers, all ok modes, chains/cycles); phase 0 uses W0 (before the
     late ABC registration), phase 1 uses W1 (after)"""
     rnd = random.Random(seed * 2 + phase)
-    types = ["A0", "A1", "A2", "B0", "B1", "D", "V", "I", "W0" if phase == 0 else "W1"]
+    types = ["A0", "A1", "A2", "A3", "A4", "B0", "B1", "D", "V", "I", "W0" if phase == 0 else "W1"]
     modes = ["always", "always", "always", "never", "first", "later", "deep"]
     out = []
     for _ in range(n):
@@ -221,6 +232,14 @@ def random_lines(seed, n, phase):
         rnd.shuffle(offers)
         offers = offers[:7]
         src = rnd.choice([t for t in types if t != "I"]) if rnd.random() < 0.5 else walk[0] if walk[0] != "I" else "A2"
+        if rnd.random() < 0.3:
+            # several direct offers for strict ancestors of a deep adaptee, an unrelated one registered in between
+            src = rnd.choice(["A3", "A4"])
+            tgt0 = rnd.choice(["B0", "V", "B1"])
+            offers = ([{"from": a, "to": tgt0, "ok": "always"} for a in rnd.sample(["A0", "A1", "A2", "A3"], rnd.randint(2, 3))]
+                      + ([{"from": "I", "to": rnd.choice([tgt0, "B0", "V"]), "ok": "always"}] if rnd.random() < 0.7 else []) + offers[:2])
+            rnd.shuffle(offers)
+            walk = [src, tgt0]
         tgt = rnd.choice(types) if rnd.random() < 0.5 else walk[-1]
         order = list(range(len(offers)))
         rnd.shuffle(order)
